@@ -93,10 +93,19 @@ structure LexCfg where
       else.  xsel does this in `grammar.disambiguateOperatorNames` after its generated lexer; the
       specification reaches the same reading in the parser (`Cfg.opNames`), by grammar position. -/
   opRule : Bool
+  /-- XPath's rule "a name in front of `(` is a NodeType or a FunctionName", applied to the token list
+      (`grammar.disambiguateFunctionNames`): an axis-name or node-type keyword that is the whole name,
+      the local part or the prefix of a function name is a name.  The specification reaches the same
+      reading in the parser (`Cfg.fnNames`). -/
+  fnRule : Bool
+  /-- `Digits '.'` is a Number: a `.` directly after digits and not directly before digits is dropped
+      from the token list (`grammar.dropTrailingDots`); the specification does it in the parser
+      (`Cfg.trailDot`). -/
+  dotRule : Bool
 deriving Repr, DecidableEq
 
-def lexModel : LexCfg := ⟨false, true, true⟩
-def lexSpec : LexCfg := ⟨true, true, false⟩
+def lexModel : LexCfg := ⟨false, true, true, true, true⟩
+def lexSpec : LexCfg := ⟨true, true, false, false, false⟩
 
 def isNameStart (lc : LexCfg) (c : Char) : Bool := isAsciiLetter c || c == '#' || (lc.uscore && c == '_')
 
@@ -235,9 +244,72 @@ def retagOps : Bool → List LTok → List LTok
     | .p x => t :: retagOps x.wantsOperand ts
     | _ => t :: retagOps false ts
 
+def Kw.isNodeType : Kw → Bool
+  | .node | .text | .comment | .pi => true
+  | _ => false
+
+def startsParen : List LTok → Bool
+  | ⟨.p .lparen, _⟩ :: _ => true
+  | _ => false
+
+/-- a token that can be (part of) a name: `ncname`, an axis name or a node type -/
+def Tok.nameLike : Tok → Bool
+  | .ncname _ => true
+  | .kw k => !k.isOpName
+  | _ => false
+
+/-- `name ':' <name> '('` follows: the current token is the prefix of a function name -/
+def prefixOfCall : List LTok → Bool
+  | ⟨.p .colon, _⟩ :: n :: ⟨.p .lparen, _⟩ :: _ => n.tok.nameLike
+  | _ => false
+
+/-- `grammar.disambiguateFunctionNames`; `pc` — the previous token is `:` -/
+def retagFns : Bool → List LTok → List LTok
+  | _, [] => []
+  | pc, t :: ts =>
+    (match t.tok with
+     | .kw k =>
+       if k.isOpName then t
+       else if startsParen ts && (pc || !k.isNodeType) then ⟨.ncname k.chars, t.glued⟩
+       else if prefixOfCall ts then ⟨.ncname k.chars, t.glued⟩
+       else t
+     | _ => t) :: retagFns (t.tok == .p .colon) ts
+
+def isDigitsTok : Tok → Bool
+  | .digits _ => true
+  | _ => false
+
+/-- do glued digits follow? -/
+def gluedDigitsNext : List LTok → Bool
+  | n :: _ => isDigitsTok n.tok && n.glued
+  | [] => false
+
+/-- the first token no longer directly follows its predecessor -/
+def unglueHead : List LTok → List LTok
+  | [] => []
+  | t :: ts => ⟨t.tok, false⟩ :: ts
+
+/-- `grammar.dropTrailingDots`.  `pi` — the previous token is `digits` that are an integer part (not
+    the fraction digits of `.5` / `1.5`); `pdot` — the previous token is `.`.  The token after a dropped
+    `.` no longer directly follows the token before it. -/
+def dropTrailDots : Bool → Bool → List LTok → List LTok
+  | _, _, [] => []
+  | pi, pdot, t :: ts =>
+    if pi && t.tok == .p .dot && t.glued && !gluedDigitsNext ts then
+      (match ts with
+       | [] => []
+       | n :: r => ⟨n.tok, false⟩ :: dropTrailDots (isDigitsTok n.tok) (n.tok == .p .dot) r)
+    else t :: dropTrailDots (isDigitsTok t.tok && !(pdot && t.glued)) (t.tok == .p .dot) ts
+
+/-- the passes `grammar.newLexer` applies to the token list of the generated lexer -/
+def LexCfg.post (lc : LexCfg) (ts : List LTok) : List LTok :=
+  let a := if lc.opRule then retagOps true ts else ts
+  let b := if lc.fnRule then retagFns false a else a
+  if lc.dotRule then dropTrailDots false false b else b
+
 def lex (lc : LexCfg) (cs : Chars) : LexRes :=
   match lexRaw lc cs with
-  | .ok ts => .ok (if lc.opRule then retagOps true ts else ts)
+  | .ok ts => .ok (lc.post ts)
   | r => r
 
 /-! ### the terminal of the parser's grammar that a token is -/
